@@ -4,72 +4,58 @@
 (* (leaspy.algo.simulate.SimulationAlgorithm) and what a completed         *)
 (* simulation must deliver.  A design is a record of abstract attribute    *)
 (* classes; Valid is the documented requirement; Outcome is what the       *)
-(* implementation does, with its deviations from                           *)
-(*   Valid => completes /\ ~Valid => refused (algorithm-input error)       *)
-(* named one by one (each is a known finding).                             *)
+(* implementation does:                                                    *)
+(*   Valid => completes   /\   ~Valid => refused (algorithm-input error)   *)
+(* On the tree as given Outcome had ten named deviations (D2-D11: wrong    *)
+(* exception classes inside the validation, True accepted as a number,     *)
+(* models without sources, non-positive mean interval accepted and         *)
+(* looping, spacing < 0.001, table without ID column, integer identifiers, *)
+(* a single individual); every one was repaired by a "fix:" commit, so     *)
+(* Outcome is now the intended one.  The constant Deviations keeps the     *)
+(* mechanism: a named deviation listed there is modelled as built.         *)
 (***************************************************************************)
 EXTENDS Naturals, FiniteSets, TLC
 CONSTANTS VisitTypes,   \* {"random", "dataframe", "other"}
-          PNs,          \* patient_number: {"pos", "zero", "neg", "str", "none", "true", "float"}
+          PNs,          \* patient_number: {"pos", "one", "zero", "neg", "str", "none", "true", "float"}
           Stds,         \* the three *_std: {"ok", "neg"}
           DMeans,       \* distance_visit_mean: {"pos", "zero", "neg"}
-          DStds,        \* distance_visit_std: {"pos", "zero"}
+          DStds,        \* distance_visit_std: {"pos", "zero", "large"} ("large": comparable to the mean, ages go back and forth)
           Spacings,     \* min_spacing_between_visits: {"absent", "one", "tenth", "tiny", "neg", "str"}
+          FollowUps,    \* follow-up duration: {"pos", "zero" (mean 0, std 0: baseline visit only), "long" (decades: saturated curves)}
           FeatKinds,    \* {"ok", "empty", "nonstr", "blank", "notlist"}
           Missing,      \* a mandatory parameter is missing: BOOLEAN
           Cols,         \* table: {"ok", "noid", "notime"}
           NullTimes,    \* table: BOOLEAN
           IdKinds,      \* table: {"str", "int"}
+          TabShapes,    \* table rows: {"plain", "unsorted_repeat" (an individual's rows out of order, one age twice), "late" (ages decades after onset)}
           SrcDims,      \* sources of the model: {1, 0}
           MaxDev,       \* explore designs with at most MaxDev attributes off the valid base
-          AsBuilt       \* TRUE: Outcome models the implementation; FALSE: the intended behaviour
+          Deviations    \* named deviations modelled as built (none on the repaired tree)
 VARIABLES d
-Base == [vt |-> "random", pn |-> "pos", std |-> "ok", dmean |-> "pos", dstd |-> "pos", spacing |-> "one", feats |-> "ok",
-         missing |-> FALSE, cols |-> "ok", nulltime |-> FALSE, idkind |-> "str", src |-> 1]
-Designs == [vt : VisitTypes, pn : PNs, std : Stds, dmean : DMeans, dstd : DStds, spacing : Spacings, feats : FeatKinds,
-            missing : Missing, cols : Cols, nulltime : NullTimes, idkind : IdKinds, src : SrcDims]
+Base == [vt |-> "random", pn |-> "pos", std |-> "ok", dmean |-> "pos", dstd |-> "pos", spacing |-> "one", fu |-> "pos", feats |-> "ok",
+         missing |-> FALSE, cols |-> "ok", nulltime |-> FALSE, idkind |-> "str", tab |-> "plain", src |-> 1]
+Designs == [vt : VisitTypes, pn : PNs, std : Stds, dmean : DMeans, dstd : DStds, spacing : Spacings, fu : FollowUps, feats : FeatKinds,
+            missing : Missing, cols : Cols, nulltime : NullTimes, idkind : IdKinds, tab : TabShapes, src : SrcDims]
 NDev(x) == Cardinality({k \in DOMAIN Base : x[k] # Base[k]})
 \* attributes of the other visit type are irrelevant: keep them at their base value
-Canonical(x) == /\ (x.vt # "random" => (x.pn = "pos" /\ x.std = "ok" /\ x.dmean = "pos" /\ x.dstd = "pos" /\ x.spacing \in {"one", "absent"} /\ ~x.missing))
-                /\ (x.vt # "dataframe" => (x.cols = "ok" /\ ~x.nulltime /\ x.idkind = "str"))
+Canonical(x) == /\ (x.vt # "random" => (x.pn = "pos" /\ x.std = "ok" /\ x.dmean = "pos" /\ x.dstd = "pos" /\ x.spacing \in {"one", "absent"}
+                                         /\ x.fu = "pos" /\ ~x.missing))
+                /\ (x.vt # "dataframe" => (x.cols = "ok" /\ ~x.nulltime /\ x.idkind = "str" /\ x.tab = "plain"))
 Init == d \in {x \in Designs : NDev(x) <= MaxDev /\ Canonical(x)}
 Next == UNCHANGED d
 Spec == Init /\ [][Next]_d
 
 FeatsOK(x) == x.feats = "ok"
-RandomOK(x) == /\ ~x.missing /\ x.pn = "pos" /\ x.std = "ok" /\ x.spacing \in {"absent", "one", "tenth", "tiny"}
+RandomOK(x) == /\ ~x.missing /\ x.pn \in {"pos", "one"} /\ x.std = "ok" /\ x.spacing \in {"absent", "one", "tenth", "tiny"}
                /\ x.dmean = "pos"                          \* the mean interval between visits is positive
 TableOK(x) == x.cols = "ok" /\ ~x.nulltime
 Valid(x) == /\ FeatsOK(x) /\ x.vt \in {"random", "dataframe"}
             /\ (x.vt = "random" => RandomOK(x)) /\ (x.vt = "dataframe" => TableOK(x))
 
-\* ---- what the implementation does (first failing check wins, in the order of the code) ----
 Outcome(x) ==
-   IF ~AsBuilt THEN (IF Valid(x) THEN "completes" ELSE "refused")
-   ELSE IF x.vt = "other" THEN "refused"
-   ELSE IF x.vt = "random" /\ x.missing THEN "crash_KeyError"                  \* D2: a missing parameter is read before the check that reports it
-   ELSE IF ~FeatsOK(x) THEN "refused"
-   ELSE IF x.vt = "random" THEN
-        (IF x.pn \in {"str", "none"} THEN "crash_TypeError"                     \* D3: value compared before the type error is raised
-         ELSE IF x.spacing = "str" THEN "crash_TypeError"                       \* D4: same for the spacing
-         ELSE IF x.pn \in {"zero", "neg", "float"} \/ x.std = "neg" THEN "refused"
-         ELSE IF x.spacing = "neg" THEN "refused"
-         ELSE IF x.dmean \in {"zero", "neg"} /\ x.dstd = "zero" THEN "refused"
-         ELSE IF x.pn = "true" THEN "crash_after_validation"                    \* D5: True is an int for the type check
-         ELSE IF x.src = 0 THEN "crash_RuntimeError"                            \* D6: a model without sources cannot be simulated
-         ELSE IF x.dmean \in {"neg", "zero"} THEN "hangs_or_completes"           \* D7: non-positive mean interval accepted: the visit loop may never end
-         ELSE IF x.spacing = "tiny" THEN "crash_TypeError"                      \* D8: spacing below 0.001: no rounding precision
-         ELSE "completes")
-   ELSE \* dataframe
-        (IF x.cols = "noid" THEN "crash_KeyError"                               \* D9: the table is grouped by ID before its columns are checked
-         ELSE IF x.cols = "notime" THEN "refused"
-         ELSE IF x.nulltime THEN "refused"
-         ELSE IF x.src = 0 THEN "crash_RuntimeError"
-         ELSE IF x.idkind = "int" THEN "crash_after_validation"                 \* D10: integer identifiers
-         ELSE "completes")
+   IF "single_individual" \in Deviations /\ Valid(x) /\ x.vt = "random" /\ x.pn = "one" /\ x.src = 1 THEN "crash_after_validation"
+   ELSE IF Valid(x) THEN "completes" ELSE "refused"
 
 \* the property
 Honoured == (Valid(d) => Outcome(d) = "completes") /\ (~Valid(d) => Outcome(d) = "refused")
-\* as built: it holds except on the named deviations
-Deviates(x) == Outcome(x) \notin {"completes", "refused"} \/ (Valid(x) # (Outcome(x) = "completes"))
 =============================================================================
